@@ -1,8 +1,12 @@
 # /verif top-level: `make setup` builds the Coq development (full .vo build), extracts the
 # executable models and compiles the OCaml drivers. No C++ here: harnesses are rebuilt
 # by every check from /repo's current working tree.
-.PHONY: setup coq ocaml clean coqproject
-setup: coq ocaml
+.PHONY: selfcheck setup coq ocaml clean coqproject
+setup: coq ocaml selfcheck
+
+# no Axiom/Parameter/Admitted/admit, no kernel check switched off, Variables only inside sections
+selfcheck:
+	python3 tools/selfcheck.py
 
 # _CoqProject lists every .v file present (dependencies are computed by coqdep)
 coqproject:
